@@ -26,6 +26,14 @@ props = {
       "the meaning of styleFiltered (what sanitizeStyles leaves of a style attribute) is C10's; here it is the marker 'went through sanitizeStyles and is non-empty'"],
    "not_decided": ["the finer shape of data-* names beyond matching ^data-.+ (no upper case, no ';', not data-xml*) is checked by isDataAttribute's regexps but not restated as a postcondition", "values of rewritten attributes (URL positions, rel, target, crossorigin, sandbox) are constrained by C03/C11/C12, here only that a rule exists for the key or the option forces it"],
    "level_text": "Proof for all policies, elements and attribute lists: sanitizeAttrs ensures every returned attribute is attrGood (admitted by data-*/style/element/element-pattern/global rule with its own value accepted by that rule's pattern, or a key the sanitiser is told to rewrite for which a rule exists, or an attribute it is told to add), carried through all eleven loops by quantified invariants; matchRegex ensures every rule in the merged table stems from a pattern that matches the element; sanitize passes exactly the table the policy resolves (apsFor), serialises exactly the list sanitizeAttrs returned, and never serialises an attribute-less tag unless allowNoAttrs holds."},
+ "C03": {"title": "URL attributes carry only allowed schemes (or allowed relative URLs)",
+   "runs": [{"fn": [P+"sanitizeAttrs", P+"validURL", "bluemonday.linkable", P+"init"], "beh": ""}], "timeout": 20, "min_obligations": 120,
+   "trusted_base": [T_SSA, T_SOLV, T_RE, T_STR, T_CB,
+      "assumed contract of net/url (specs/lib/url.spec): Parse is total and returns a fresh URL or an error; String() is a function of the URL's fields; the serialisation of a URL parses again (T5)",
+      "stable-predicate meta-theorem (DESIGN §2.10)"],
+   "not_decided": ["that net/url's idea of the scheme is the browser's (backslashes, C0 prefixes, tab/newline inside the scheme): a relation between two URL parsers, neither in /repo (T5)",
+                   "control characters other than space/tab/newline: rejected by url.Parse, not by /repo (T5)"],
+   "level_text": "Proof for all policies, elements and attribute lists: validURL ensures that an accepted value is the serialisation of a URL that parsed and whose scheme is on the allowlist and approved by a registered custom check, or matches a scheme pattern, or is relative with relative URLs allowed; sanitizeAttrs ensures, when requireParseableURLs is on, that every surviving attribute at one of the seventeen URL positions of the statement carries such a value, or the src rewriter's result when one is installed, through every later rewriting pass. The whitespace clause is split by case: proved for non-data: values, recorded as a known finding for data: values."},
  "C05": {"title": "script and style never survive unless AllowUnsafe(true)",
    "runs": [{"fn": SAN, "beh": ""}], "timeout": 15, "min_obligations": 40,
    "trusted_base": [T_SSA, T_SOLV, T_HTML, T_REPARSE, T_IO, T_RE, T_STR, "ground facts normalise(\"script\") == \"script\", normalise(\"style\") == \"style\" (axiom normalise-script; evaluated on the real normaliseElementName by the selftest)"],
